@@ -50,6 +50,10 @@ pub enum SVal {
     CollectSeq(Vec<SVal>),
     CollectMap(Vec<(SVal, SVal)>),
     CollectStr(String),
+    /// std types whose Serialize impl branches on `is_human_readable` (text form vs compact form)
+    Ip(std::net::IpAddr),
+    /// serializes `true` when the serializer says it is human readable, `false` otherwise
+    HumanReadableProbe,
     /// a Serialize impl that fails with a custom error
     Fail,
 }
@@ -133,6 +137,11 @@ impl Serialize for SVal {
             SVal::CollectSeq(v) => s.collect_seq(v.iter()),
             SVal::CollectMap(v) => s.collect_map(v.iter().map(|(k, x)| (k, x))),
             SVal::CollectStr(v) => s.collect_str(v),
+            SVal::Ip(a) => a.serialize(s),
+            SVal::HumanReadableProbe => {
+                let hr = s.is_human_readable();
+                s.serialize_bool(hr)
+            }
             SVal::Fail => Err(serde::ser::Error::custom("injected failure")),
         }
     }
@@ -150,6 +159,7 @@ fn key_image(k: &SVal) -> Result<Option<String>, ()> {
     // Ok(Some(s)) string key; Ok(None) unspecified (string-like); Err(()) unsupported key
     match k {
         SVal::Str(s) => Ok(Some(s.clone())),
+        SVal::Ip(a) => Ok(Some(a.to_string())),
         SVal::Char(_) | SVal::UnitVariant(_) | SVal::CollectStr(_) => Ok(None),
         SVal::NewtypeStruct(i) | SVal::Some(i) if matches!(**i, SVal::Str(_)) => Ok(None),
         _ => Err(()),
@@ -224,6 +234,9 @@ fn image(v: &SVal) -> Img {
         SVal::NewtypeVariant(n, x) => tagged(n, image(x)),
         SVal::Seq(v) | SVal::Tuple(v) | SVal::TupleStruct(v) | SVal::CollectSeq(v) => seq(v),
         SVal::CollectStr(s) => Img::Ok(RV::Str(s.clone())),
+        // a Value is a readable structure like JSON: the text form is the faithful image
+        SVal::Ip(a) => Img::Ok(RV::Str(a.to_string())),
+        SVal::HumanReadableProbe => Img::Ok(RV::Bool(true)),
         SVal::TupleVariant(n, v) => tagged(n, seq(v)),
         SVal::Map(entries) | SVal::CollectMap(entries) => {
             let mut out = BTreeMap::new();
@@ -267,7 +280,7 @@ fn json_representable(v: &SVal) -> bool {
         SVal::F64(x) => x.is_finite(),
         SVal::Some(x) | SVal::NewtypeStruct(x) | SVal::NewtypeVariant(_, x) => json_representable(x),
         SVal::Seq(v) | SVal::Tuple(v) | SVal::TupleStruct(v) | SVal::TupleVariant(_, v) | SVal::CollectSeq(v) => v.iter().all(json_representable),
-        SVal::Map(e) | SVal::CollectMap(e) => e.iter().all(|(k, x)| matches!(k, SVal::Str(_)) && json_representable(x)),
+        SVal::Map(e) | SVal::CollectMap(e) => e.iter().all(|(k, x)| matches!(k, SVal::Str(_) | SVal::Ip(_)) && json_representable(x)),
         SVal::Struct(f) | SVal::StructVariant(_, f) => f.iter().all(|(_, x)| json_representable(x)),
         SVal::Fail => false,
         _ => true,
@@ -328,6 +341,8 @@ fn kind_name(v: &SVal) -> &'static str {
         SVal::CollectSeq(_) => "collect_seq",
         SVal::CollectMap(_) => "collect_map",
         SVal::CollectStr(_) => "collect_str",
+        SVal::Ip(_) => "ip_addr",
+        SVal::HumanReadableProbe => "human_readable_probe",
         SVal::Fail => "fail",
     }
 }
@@ -396,6 +411,12 @@ fn leaves() -> Vec<SVal> {
     v.push(SVal::UnitVariant("A"));
     v.push(SVal::CollectStr("2015-07-30T03:26:13Z".into()));
     v.push(SVal::CollectStr(String::new()));
+    v.push(SVal::Ip("127.0.0.1".parse().unwrap()));
+    v.push(SVal::Ip("::1".parse().unwrap()));
+    v.push(SVal::HumanReadableProbe);
+    v.push(SVal::Char(char::MAX));
+    v.push(SVal::Char('\u{10000}'));
+    v.push(SVal::Char('\u{ffff}'));
     v.push(SVal::Fail);
     v
 }
